@@ -503,10 +503,13 @@ MANIFEST = {
     "text": "Decides on every run structural necessary conditions of 'total and well-formed': no undischarged, unreviewed "
             "panic site reachable from any of the seven translators; no definite width refutation in any lifter (the "
             "abstract interpreter proves several hundred width obligations outright, e.g. all 346 of the MIPS lifter); "
-            "guard pairs of conditional edges are complementary; every handler sets entry and exit; the lifting loops "
-            "make progress; unsupported instructions become an intrinsic or an error. It does not decide decoder "
-            "termination, nor well-formedness where widths depend on decoder operand invariants (reported as undecided).",
+            "guards of conditional edges and of the successors of each terminator are mutually exclusive and exhaustive "
+            "(propositional enumeration); every handler, including the rep wrappers, sets entry and exit; the lifting "
+            "loops make progress; unsupported instructions become an intrinsic or an error; the load address is added "
+            "with overflow checking (four known findings). It does not decide decoder termination, nor well-formedness "
+            "where widths depend on decoder operand invariants (reported as undecided).",
     "note": "Trusted: rustc nightly HIR/MIR; transfer functions of the IL DSL and register tables in fv/ilshape.py; the "
-            "reviewed panic-site list fv/refs/c05_reviewed_sites.json (one reason per site: decoder operand-kind "
-            "invariants of capstone/bad64); overflow assertions are excluded.",
+            "reviewed panic-site list fv/refs/c05_reviewed_sites.json (182 sites, one reason each: decoder operand "
+            "count/kind/width invariants of capstone/bad64, window slices) - these are assumptions, one class was "
+            "falsified and repaired during the build (DESIGN.md section 0.6); other overflow assertions are excluded.",
 }
